@@ -190,21 +190,46 @@ def run(cx):
         sd = [s for s in cxx.all_stmts(b) if s["k"] == "decl" and s["name"] == "__redu_step_delay"]
         r.check(len(sd) == 1 and "((float)__redu_total / (float)__redu_steps)" in show(sd[0]["init"]), "sweep/step-delay=total/steps", (em, em.func("_emit_block")), f"step delay is `{show(sd[0]['init']) if sd else '?'}`")
         r.check([show(c) for c in cxx.all_calls(lb, "delay")] == ["delay((unsigned long)__redu_step_delay)"], "sweep/one-delay-per-step", (em, em.func("_emit_block")), "exactly one delay of step_delay per tone")
-    tbl = lit.table(em, "_BUZZER_MELODIES")
-    for name in sorted(tbl):
-        b, text = body_of("BuzzerMelody", melody=name, tempo="H_t")
-        loops = [s for s in cxx.all_stmts(b) if s["k"] == "for"]
-        okl = len(loops) == 1 and show(loops[0]["cond"]) == "(__redu_i < __redu_melody_len)"
-        r.check(okl, f"melody[{name}]/loop-over-score", (em, em.func("_emit_block")), "melody must iterate over the whole score")
-        fr = re.search(r"__redu_freqs\[\] = \{(.*?)\};", text)
-        bt = re.search(r"__redu_beats\[\] = \{(.*?)\};", text)
-        seq = tbl[name]["sequence"]
-        okf = fr and [round(float(x.strip().rstrip("f")), 3) for x in fr.group(1).split(",")] == [round(f, 3) for f, _b in seq]
-        okb = bt and [round(float(x.strip().rstrip("f")), 3) for x in bt.group(1).split(",")] == [round(b_, 3) for _f, b_ in seq]
-        r.check(bool(okf and okb), f"melody[{name}]/score-emitted-in-order", (em, em.func("_emit_block")), "emitted frequency/beat arrays differ from the score table (order or values)")
-        r.check("__redu_beat_ms = 60000.0f / __redu_tempo" in text and "__redu_duration = __redu_beats[__redu_i] * __redu_beat_ms" in text, f"melody[{name}]/duration=beat*60000/tempo", (em, em.func("_emit_block")), "note duration must be beat * 60000 / tempo")
-        ml = [s for s in cxx.all_stmts(b) if s["k"] == "decl" and s["name"] == "__redu_melody_len"]
-        r.check(bool(ml) and "sizeof" in show(ml[0]["init"]), f"melody[{name}]/length=table-length", (em, em.func("_emit_block")), "score length must be the array length")
+    # melodies: what the firmware plays is read off the kernel's tone/delay events (C semantics) - independent of how the score
+    # table and the template are written
+    from .. import ckern as _ck
+
+    def melody_names():
+        v_ = dl.Interp(em).expr(ast.Name(id="_BUZZER_MELODIES", ctx=ast.Load()), dl.Env(None))
+        return sorted(v_)
+
+    def melody_notes(name, tempo):
+        """[(frequency or 0 for a rest, milliseconds)] played by melody(name, tempo=...); tempo None = omitted"""
+        cls_ = pe.ir_classes()[0]
+        base_ = l2.functions_of(pe.emit_program(setup=[l2.decl_node("Buzzer")], loop=[]).text, ["setup"])["setup"][0]["body"]
+        res_ = pe.emit_program(setup=[l2.decl_node("Buzzer"), cls_["BuzzerMelody"](name="dev", melody=name, tempo=(None if tempo is None else "H_t"))], loop=[])
+        if res_.raised:
+            raise AnalysisError(f"emit() raises for melody {name}")
+        body_ = l2.functions_of(res_.text, ["setup"])["setup"][0]["body"][len(base_):]
+        k_ = _ck.Kern(env={"__buzzer_state_dev": 0, "__buzzer_current_dev": 0.0, "__buzzer_last_dev": 440.0, "H_t": (0 if tempo is None else tempo)}, types={"__buzzer_state_dev": "bool", "__buzzer_current_dev": "float", "__buzzer_last_dev": "float"})
+        try:
+            k_.block(body_)
+        except _ck.KernUnsupported as e:
+            raise AnalysisError(f"melody kernel left the evaluable subset: {e}")
+        notes, pending = [], None
+        for nm_, a_ in k_.events:
+            if nm_ == "tone":
+                pending = a_[1]
+            elif nm_ == "delay":
+                notes.append((pending if pending is not None else 0, a_[0]))
+                pending = None
+        silent = bool(k_.events) and k_.events[-1][0] == "noTone" and not k_.env.get("__buzzer_state_dev")
+        return notes, silent
+
+    names_all = melody_names()
+    for name in names_all:
+        n120, silent = melody_notes(name, 120)
+        n60, _s = melody_notes(name, 60)
+        n240, _s = melody_notes(name, 240)
+        r.check(bool(n120) and [f for f, _d in n120] == [f for f, _d in n60] == [f for f, _d in n240], f"melody[{name}]/loop-over-score", (em, em.func("_emit_block")), f"melody {name} plays {[f for f, _d in n120][:8]} at tempo 120 and {[f for f, _d in n60][:8]} at tempo 60: the whole score must be played in order at every tempo")
+        okd = len(n120) == len(n60) == len(n240) and all(abs(d60 - 2 * d120) <= 2 and abs(d120 - 2 * d240) <= 2 for (_f, d120), (_g, d60), (_h, d240) in zip(n120, n60, n240))
+        r.check(okd, f"melody[{name}]/duration=beat*60000/tempo", (em, em.func("_emit_block")), f"note durations at tempo 240/120/60: {[d for _f, d in n240][:6]} / {[d for _f, d in n120][:6]} / {[d for _f, d in n60][:6]}: a note lasts beat * 60000 / tempo ms (halving the tempo doubles every note)")
+        r.check(silent, f"melody[{name}]/ends-silent", (em, em.func("_emit_block")), "the melody must end with noTone and the sounding flag cleared")
 
     # ---- C16-KERNEL --------------------------------------------------------------------------
     # the sweep and beep commands evaluated with C semantics over a grid of arguments: the clauses of the property read off
@@ -269,24 +294,26 @@ def run(cx):
 
     # ---- C16-MELODY --------------------------------------------------------------------------
     r = cx.rule("C16-MELODY", "the melody names accepted by the parser, the emitter's score table and the documented tunes agree; every score has a positive tempo, non-empty notes with frequency >= 0 and beat > 0, and the documented shape", floor=20)
-    pnames = lit.table(pm, "_BUZZER_MELODIES")
+    tbl = names_all
+    try:
+        pnames = sorted(dl.Interp(pm).expr(ast.Name(id="_BUZZER_MELODIES", ctx=ast.Load()), dl.Env(None)))
+    except dl.Unsupported as e:
+        raise AnalysisError(f"the parser's melody vocabulary is not evaluable: {e}")
     doc = ast.get_docstring(hm.tree) or ""
     doc_names = set(re.findall(r"``\"([a-z_]+)\"``", doc))
     r.check(set(pnames) == set(tbl), "melody-names/parser=emitter", (pm.rel, pm.const("_BUZZER_MELODIES").lineno), f"parser accepts {sorted(pnames)}, emitter knows {sorted(tbl)}")
     r.check(doc_names == set(tbl), "melody-names/documented=emitter", (hm.rel, 1), f"documented {sorted(doc_names)}, emitter knows {sorted(tbl)}")
-    for name, ent in tbl.items():
-        seq = ent.get("sequence") if isinstance(ent, dict) else None
-        # the tune's own tempo as the firmware sees it: the value used when tempo is omitted and the fallback for a
-        # run-time tempo <= 0 are the same positive number (and the table's, where the table carries one)
-        t_none = pe.emit_program(setup=[l2.decl_node("Buzzer"), pe.ir_classes()[0]["BuzzerMelody"](name="dev", melody=name, tempo=None)]).text or ""
-        t_rt = pe.emit_program(setup=[l2.decl_node("Buzzer"), pe.ir_classes()[0]["BuzzerMelody"](name="dev", melody=name, tempo="H_t")]).text or ""
-        m1 = re.search(r"float __redu_tempo = ([0-9.]+)f;", t_none)
-        m2 = re.search(r"if \(__redu_tempo <= 0(?:\.0f)?\) \{ __redu_tempo = ([0-9.]+)f; \}", t_rt)
-        own = float(m1.group(1)) if m1 else None
-        fb = float(m2.group(1)) if m2 else None
-        tt = ent.get("tempo") if isinstance(ent, dict) else None
-        r.check(own is not None and own > 0 and fb == own and (tt is None or float(tt) == own), f"score[{name}]/own-tempo>0-and-consistent", (em.rel, em.const("_BUZZER_MELODIES").lineno), f"tempo when omitted {own}, fallback for tempo<=0 {fb}, table {tt}")
-        r.check(bool(seq) and all(isinstance(f, (int, float)) and f >= 0 and isinstance(b_, (int, float)) and b_ > 0 for f, b_ in seq), f"score[{name}]/notes-well-formed", (em.rel, em.const("_BUZZER_MELODIES").lineno), "every note needs frequency >= 0 and beat > 0")
+    for name in tbl:
+        # the tune's own tempo as the firmware plays it: omitted tempo, tempo 0 and a negative tempo all play the same positive
+        # durations; the implied tempo (from the 1/tempo law) is positive
+        own, _s = melody_notes(name, None)
+        zero, _s = melody_notes(name, 0)
+        neg, _s = melody_notes(name, -5)
+        n120, _s = melody_notes(name, 120)
+        tot_own, tot120 = sum(d for _f, d in own), sum(d for _f, d in n120)
+        r.check(bool(own) and own == zero == neg and tot_own > 0 and tot120 > 0, f"score[{name}]/own-tempo>0-and-consistent", (em.rel, em.const("_BUZZER_MELODIES").lineno), f"total duration with the tempo omitted {tot_own} ms, with tempo 0 {sum(d for _f, d in zero)} ms, with tempo -5 {sum(d for _f, d in neg)} ms: an omitted or non-positive tempo must fall back to the tune's own positive tempo")
+        r.check(bool(n120) and all(isinstance(f, (int, float)) and f >= 0 and d > 0 for f, d in n120), f"score[{name}]/notes-well-formed", (em.rel, em.const("_BUZZER_MELODIES").lineno), f"notes played at tempo 120: {n120[:6]}: every note needs frequency >= 0 and a positive duration")
+        seq = n120
         if name in DOC_SHAPES and seq:
             cnt, shape = DOC_SHAPES[name]
             fs = [f for f, _b in seq]
@@ -298,12 +325,12 @@ def run(cx):
                 oks = len(set(fs)) == 2 and all(fs[i] == fs[i % 2] for i in range(len(fs))) and len(fs) % 2 == 0
             else:
                 oks = len(fs) == 3 and fs[0] == fs[2] and fs[1] == 0
-            r.check(oks and (cnt is None or len(fs) == cnt), f"score[{name}]/documented-shape", (em.rel, em.const("_BUZZER_MELODIES").lineno), f"documented as {shape}{'' if cnt is None else f' with {cnt} notes'}; table has {len(fs)} notes {fs[:6]}")
+            r.check(oks and (cnt is None or len(fs) == cnt), f"score[{name}]/documented-shape", (em.rel, em.const("_BUZZER_MELODIES").lineno), f"documented as {shape}{'' if cnt is None else f' with {cnt} notes'}; the firmware plays {len(fs)} notes {fs[:6]}")
     # the parser stores a name the emitter knows: scripts with every spelling of a melody name (exact, other case, padded,
     # unknown) are parsed; each is either refused with ValueError or stored as a name for which the emitter plays the score
     # (a name that passes validation and then finds no score would make the call vanish)
     from .. import pe as _pe
-    names_tbl = sorted(lit.table(em, "_BUZZER_MELODIES"))
+    names_tbl = list(names_all)
     cls_, _f = _pe.ir_classes()
     spellings = []
     for nm_ in names_tbl:
